@@ -394,6 +394,16 @@ class G:
         else:
             times = [p.time for p in t.entries]
             r = self.rng.random()
+            if times and self.regime != "grid" and self.chance(0.07):
+                # "close twin": one ulp next to an existing point, with that point's label.  No collision
+                # (times are compared exactly), and from then on the two must be kept apart by every
+                # later delete / replace / merge although they are equal under praatio's tolerant ==
+                e = self.pick(t.entries)
+                tm = math.nextafter(float(e.time), self.pick([-math.inf, math.inf]))
+                if tm >= 0 and tm not in times:
+                    return {"op": "tier.insertEntry", "recv": h, "a": [self.enc_entry([tm, e.label], "P")],
+                            "k": {"collisionMode": mode, "collisionReportingMode": report}, "tag": None,
+                            "cat": "close-twin"}
             if times and r < 0.45:
                 tm, cat = self.pick(times), "same-time"
             elif r < 0.6:
